@@ -172,6 +172,18 @@ where
         }
         finish(&format!("stretched-v-x{k}"), v2, &|_, q| Some(ctx.ext_cols[q].clone()), &mut out);
     }
+    // (c) free v: v' = v + d*e_0 with the true columns and their honest paths at the new indices
+    //     (accepted exactly when the column equation <b, col_j> == E(v')[q_j] is not enforced)
+    if !hon.v.is_empty() {
+        let d: S::F = {
+            use ark_ff::UniformRand;
+            S::F::rand(&mut stream(scn.seed, "forge-free-v", f.param))
+        };
+        let mut v2 = hon.v.clone();
+        let k = (f.aux) % v2.len();
+        v2[k] += d;
+        finish("free-v", v2, &|_, q| Some(ctx.ext_cols[q].clone()), &mut out);
+    }
     // (a) forged columns for v' = v + d*e_0
     if cm.n_rows >= 2 && !a.is_empty() {
         let d: S::F = {
